@@ -8,7 +8,7 @@
    the only standing hypothesis is that pool names are distinct (they are resource names). *)
 From Coq Require Import List NArith Arith Bool Sorting.Permutation Sorting.Sorted.
 From Verif.Common Require Import Prefix.
-From Verif.C39 Require Import Model Spec Order Proofs Reconcile History.
+From Verif.C39 Require Import Model Spec Order Proofs Reconcile History TrieLink.
 Import ListNotations.
 
 (* (1) After a reconcile no two allocatable pools overlap. *)
@@ -159,6 +159,15 @@ Theorem c39_sort_unique : forall l l', NoDup (map p_name l) ->
   Permutation l l' -> StronglySorted ple l' -> l' = sort_pools l.
 Proof. exact sort_unique. Qed.
 Print Assumptions c39_sort_unique.
+
+(* ---- the overlap trie: the pass written with the two felix/ip CIDR tries of the C36 model (Update to
+   insert, Get != nil || Intersects || Covers to test) computes exactly what the model's pass over a plain
+   list of stored prefixes computes, for every pool set whose readable CIDRs are in range (which
+   net.ParseCIDR guarantees) *)
+Theorem c39_trie_pass_is_list_pass : forall tf pools, Forall valid_pool pools ->
+  reconcile_conditions_t tf pools = reconcile_conditions tf pools.
+Proof. exact trie_pass_is_list_pass. Qed.
+Print Assumptions c39_trie_pass_is_list_pass.
 
 (* ---- non-vacuity: a history in which every hypothesis above is met by a non-trivial state *)
 Open Scope N_scope.
